@@ -34,10 +34,13 @@ RULE = ('serial: stores built by parsing AND by programmatic binding (nested val
         'or a scoped module-qualified key together with >= 1 omitted value.')
 TRUSTED_BASE = [
     'Coq 8.16.1 kernel; vm_compute in the correspondence run; no native_compute',
+    'hand-written models of CPython pieces, each compared with CPython 3.12.1 text for text on every run (engine modelled-texts): coq/Model/StrLit.v (repr of str / bytes / int, literal_eval of one literal text), coq/Model/PPrint.v and PPrintStr.v (pprint.pformat for list / tuple / dict trees incl. the splitting of long strings; _pprint_bytes NOT modelled), coq/Model/Lexer.v (the tokenizer, 7-bit printable ASCII)',
+    'hand-written models coq/Model/ConfigText.v, ConfigTextImports.v, ConfigTextStr.v of the WHOLE text of config_str() (static registration), compared with gin.config_str() of /repo character for character on generated stores on every run; Props/ConfigText*.v prove read-back from characters for these models',
+    'atom oracle: floats / complex and, for split strings, the hypothesis oracle_agrees_with_decode (validated against ast.literal_eval by harness/pprintm/pprint_str_corr.py)',
     'hand-written model coq/Model/Serial.v of gin/config.py:1980-2063,2102-2223,2886-2922 and config_parser.py:86-117 (line structure: imports, macro section, sections, sorting, wrapping decision, markdown); tied to /repo by harness/props/c06.py',
     'NOT modelled: pprint.pformat and repr (value -> text) and the representability test: the harness measures them per value with the real functions and hands them to the model as an oracle; where the type structure of the value decides representability (builtin literal types at every depth, references; repr that is no Python literal) the oracle is that independent verdict (lit_class), not the answer of gin._is_literally_representable',
 ]
-ASSUMPTIONS = ['static registration only (dynamic registration: C19 engine)', 'ASCII selectors']
+ASSUMPTIONS = ['character-level theorems: static registration, ASCII, values without references / macros; dynamic registration is covered at line level (engine config-str-dynamic, C19)', 'ASCII selectors']
 
 SELS = ['m.f', 'n.g', 'pkg.sub.h', 'k', 'n.sub.h', 'm.Foo', 'm.foo']
 MODS = ['alpha', 'beta.gamma', 'pkg.sub', 'zeta', 'other.alpha', 'Zed', 'Zed.sub', '_under']
